@@ -69,6 +69,7 @@ class Path:
         self.solver.set("timeout", 10000)
         self.depth = 0
         self.decision_idx = set()
+        self.memo = {}                  # results of assumed contracts on this path (functional purity, C20)
 
     # -- solver --------------------------------------------------------------------------------------
     def assume(self, c):
@@ -160,7 +161,10 @@ class Path:
         f = self.fields(obj)
         if name not in f:
             raise Limitation(f"field {name} of {obj!r} is not defined on this path")
-        return f[name]
+        v = f[name]
+        if isinstance(v, Unknown) and name in ("_Pregex__type", "_Pregex__repeatable"):
+            v = self.eng.force_unknown(self, obj, name, v)
+        return v
 
     def setf(self, obj, name, value, frame=True):
         self.fields(obj)[name] = value
@@ -184,6 +188,26 @@ class Engine:
         self.memo_results = {}
         self.externals = {}                   # dotted name -> handler(engine, path, args, kwargs)
         self.trace = []
+
+    def force_unknown(self, path, obj, name, v):
+        """a field that an assumed contract left undetermined (the inferred type / flag of a result): every value the
+        class invariant allows is explored"""
+        f = path.fields(obj)
+        if name == "_Pregex__repeatable":
+            ty = f.get("_Pregex__type")
+            if not isinstance(ty, Unknown) and ty is not None and ty.name != "Assertion":
+                f[name] = True
+            else:
+                f[name] = self.fresh("rep", BoolS)
+            return f[name]
+        T = self.index.modules["pregex.core.pre"].pyobj._Type
+        names = [t for t in T if t.name != "Empty"]
+        i = path.choose([(t.name, True) for t in names], f"type of {obj.label}")
+        f[name] = names[i]
+        t = f.get("_Pregex__pattern")
+        if isinstance(t, SStr) and len(t.pieces) == 1 and not isinstance(t.pieces[0], str) and isinstance(t.pieces[0].info, dict):
+            t.pieces[0].info.setdefault("type", names[i].name)
+        return names[i]
 
     # -- fresh symbols -------------------------------------------------------------------------------
     def fresh(self, prefix, sort):
@@ -753,6 +777,16 @@ class Engine:
     def slice(self, base, lo, hi, path):
         if isinstance(base, (tuple, list, str)) and not is_sym(lo) and not is_sym(hi):
             return base[lo:hi]
+        if isinstance(base, SStr) and (lo is None or isinstance(lo, int)) and (hi is None or isinstance(hi, int)):
+            ps = list(base.pieces)
+            l0 = lo or 0
+            h0 = hi
+            if l0 >= 0 and (h0 is None or h0 < 0) and ps and isinstance(ps[0], str) and len(ps[0]) >= l0 \
+                    and (h0 is None or (isinstance(ps[-1], str) and len(ps[-1]) >= -h0)) and (len(ps) > 1 or h0 is None):
+                ps[0] = ps[0][l0:]
+                if h0 is not None:
+                    ps[-1] = ps[-1][:h0]
+                return mkstr(*ps)
         if is_strv(base):
             t = str_term(base)
             n = z3.Length(t)
